@@ -4,6 +4,10 @@
   Model: HapModel/Sessions.lean (registry of connections, dispatch guards, handle_pairings with
   add / remove / list and the last-admin rule, teardown of unpaired sessions by
   `_process_response` after the response is written) on top of HapModel/PairVerify.lean.
+  Deepening round: delayed responses (`Req.resource` / `Op.ready`: `response.task`,
+  `_handle_response_ready`) and `Op.restart` are part of the alphabet; the cut theorem speaks about
+  every continuation (rest of the remover's segment, re-adding, completions of delayed responses,
+  restarts), and "useful answers go to paired controllers only" covers every request kind.
   `step C true` is the repaired code, `step C false` the code before the repair.
   All theorems hold for every value of the crypto parameters `C`.
 -/
@@ -54,15 +58,20 @@ theorem C16_new_session_refused (C : Crypto) (rep : Bool) (s1 : Sys) (later : Li
     repeat' split
     all_goals simp_all
 
-/-- **Open sessions are cut, the acknowledgement goes out first.**  In ANY state `s`, when an
-    admin's verified, registered connection `c` asks to remove the pairing `uname` (parsing to
-    `u`): the trace grows by the acknowledgement — delivered to the remover (`resp`, not
+/-- **Open sessions are cut, the acknowledgement goes out first — for every continuation.**  In ANY
+    state `s`, when an admin's verified, registered connection `c` asks to remove the pairing `uname`
+    (parsing to `u`): the trace grows by the acknowledgement — delivered to the remover (`resp`, not
     `dropped`), even if its own connection is among those closed — followed by the closes; `u` is
     no longer paired; and every registered connection `d` of a controller `v` that is no longer
     paired afterwards (the named one, or everybody when the last-admin rule fired) is closed,
     unregistered, has lost its privilege flag (so even requests already buffered behind the
-    removal are answered 401 into the void), and — for every later history without a new TCP
-    connection under that id — never sees another event: no request on it is served. -/
+    removal are answered 401 into the void), and NOTHING EVER REACHES ITS PEER AGAIN: not through
+    the remaining requests `post` of the remover's own segment (whatever they are — also when `d`
+    is the remover's connection), not through any later history `later` of connects, closes,
+    segments on any connection, pairings registered again (also `v` itself: re-adding does not
+    revive an old session), completions of delayed responses (`ready d`: a snapshot that was being
+    taken when the removal came is never written) and restarts — as long as no NEW TCP connection
+    takes the id `d`. -/
 theorem C16_open_sessions_cut (C : Crypto) (s : Sys) (c : Nat) (uname : Bytes) (me u : Uuid)
     (hc : c ∈ s.live) (hme : (s.conns c).pv.client = some me)
     (hver : (s.conns c).pv.verified = true) (hadm : isAdmin s.pairings me = true)
@@ -73,8 +82,8 @@ theorem C16_open_sessions_cut (C : Crypto) (s : Sys) (c : Nat) (uname : Bytes) (
       ∀ d v, d ∈ s.live → (s.conns d).pv.client = some v → getKey s1.pairings v = none →
         d ∈ closes ∧ d ∉ s1.live ∧ (s1.conns d).pv.verified = false ∧
         (∀ kind, (procReq C true s1 d (.guarded kind)).trace = s1.trace ++ [Event.dropped d .unauthorized]) ∧
-        (∀ later, (∀ op ∈ later, op ≠ .connect d) →
-          eventsOf d (run C true s1 later).trace = eventsOf d s1.trace) := by
+        (∀ post later, (∀ op ∈ later, op ≠ .connect d) →
+          reachedOf d (run C true (procChunk C true c s1 post) later).trace = reachedOf d s1.trace) := by
   intro s1
   have hs1 : s1 = teardown (emit { s with
       pairings := if (getKey s.pairings u).isSome then removePairing s.pairings u else s.pairings,
@@ -105,8 +114,9 @@ theorem C16_open_sessions_cut (C : Crypto) (s : Sys) (c : Nat) (uname : Bytes) (
     refine ⟨by simp [List.mem_filter, hd, hvict], hnl, hnv, ?_, ?_⟩
     · intro kind
       simp [procReq, hnv, hnl]
-    · intro later hl
-      exact (run_dead C true s1 later d hnl hl).2
+    · intro post later hl
+      have h1 := procChunk_dead C true c s1 post d hnl
+      rw [(run_dead C true _ later d h1.1 hl).2, h1.2]
 
 /-- **Acknowledgement first.** The response to an accepted removal is written to the remover's
     still open transport (`resp`, never `dropped`) before any connection is closed — also when the
@@ -167,6 +177,73 @@ theorem C16_served_only_paired (C : Crypto) (ops : List Op) (c : Nat) (pre : Lis
   obtain ⟨u, hu, hp⟩ := hsafe c hv
   exact ⟨u, hu, hp hl⟩
 
+/-- **Every useful answer goes to a currently paired controller** (all request kinds).  For every
+    history of the repaired system, at every point — also in the middle of a segment, after any
+    requests `pre` pipelined before — whenever a request of ANY kind (guarded endpoint, list / add /
+    remove pairing, pair-verify, resource) on connection `c` produces an answer that reaches the
+    peer and gives it something (`useful`: content or an effect, the pairing list, an
+    acknowledgement), the connection is registered and verified as a controller that is paired at
+    that very moment. -/
+theorem C16_response_only_paired (C : Crypto) (ops : List Op) (c : Nat) (pre : List Req) (req : Req)
+    (r : RC) (evs : List Event) :
+    let s := procChunk C true c (run C true {} ops) pre
+    (procReq C true s c req).trace = s.trace ++ evs → Event.resp c r ∈ evs → useful r = true →
+      ∃ u, (s.conns c).pv.client = some u ∧ (s.conns c).pv.verified = true ∧
+        (getKey s.pairings u).isSome = true := by
+  intro s h hm hu
+  have hsafe : Safe s := safe_procChunk C c _ pre (safe_run C {} ops safe_init)
+  obtain ⟨hl, hv⟩ := procReq_useful C true s c req r evs h hm hu
+  obtain ⟨u, hcu, hp⟩ := hsafe c hv
+  exact ⟨u, hcu, hv, hp hl⟩
+
+/-- ... and so does every delayed response: when the snapshot task of connection `c` completes and
+    its response is written, `c` is registered; if it is (still) verified, its controller is paired. -/
+theorem C16_delayed_response_only_registered (C : Crypto) (ops : List Op) (c : Nat) (ok : Bool) :
+    let s := run C true {} ops
+    (step C true s (.ready c ok)).trace ≠ s.trace →
+      c ∈ s.live ∧ ((s.conns c).pv.verified = true →
+        ∃ u, (s.conns c).pv.client = some u ∧ (getKey s.pairings u).isSome = true) := by
+  intro s h
+  have hsafe : Safe s := safe_run C {} ops safe_init
+  have hl : c ∈ s.live := by
+    by_cases hl : c ∈ s.live
+    · exact hl
+    · exfalso; apply h; simp only [step]; split <;> simp [hl]
+  refine ⟨hl, fun hv => ?_⟩
+  obtain ⟨u, hcu, hp⟩ := hsafe c hv
+  exact ⟨u, hcu, hp hl⟩
+
+/-- a delayed response is never written to a connection that is not registered any more (a cut
+    session in particular): nothing at all is appended to the trace -/
+theorem C16_delayed_response_suppressed (C : Crypto) (s : Sys) (d : Nat) (ok : Bool) (hd : d ∉ s.live) :
+    (step C true s (.ready d ok)).trace = s.trace := by
+  simp only [step]; split <;> simp [hd]
+
+/-- **No live session while unpaired.**  For every history, for every identifier `v` that is not
+    paired at that point (never paired, removed, swept by the last-admin rule), no registered
+    connection is verified as `v` — whatever `v` tried on old and new connections before. -/
+theorem C16_unpaired_has_no_live_session (C : Crypto) (ops : List Op) (v : Uuid) (d : Nat) :
+    let s := run C true {} ops
+    getKey s.pairings v = none → d ∈ s.live → (s.conns d).pv.client = some v →
+      (s.conns d).pv.verified = false := by
+  intro s hgone hl hcl
+  cases hv : (s.conns d).pv.verified
+  · rfl
+  · exfalso
+    obtain ⟨u, hu, hp⟩ := safe_run C {} ops safe_init d hv
+    rw [hcl] at hu; cases hu
+    have := hp hl
+    rw [hgone] at this; simp at this
+
+/-- **Restart.**  Ending the process and starting again from the state file keeps every removed
+    identifier out (the pairing map is the saved one) and leaves no session behind; together with
+    `C16_new_session_refused` — whose later histories include restarts — a removed controller stays
+    out across any number of restarts. -/
+theorem C16_restart_keeps_out (C : Crypto) (s : Sys) :
+    (step C true s .restart).pairings = s.pairings ∧ (step C true s .restart).live = [] ∧
+    ∀ d, ((step C true s .restart).conns d).pv.verified = false := by
+  simp [step]
+
 /-- The invariant behind it, for every history: every registered verified connection belongs to
     a currently paired controller. -/
 theorem C16_invariant (C : Crypto) (ops : List Op) : Safe (run C true {} ops) :=
@@ -196,7 +273,45 @@ def hist : List Op :=
    .chunk 1 [.pairVerify (m1 201)], .chunk 1 [.pairVerify (m3 uB skB 201 6)],
    .chunk 0 [.removePairing uB], .chunk 1 [.guarded 0]]
 
+/-- B has a snapshot in flight when A removes B and — in the same segment — registers B again and
+    reads; then the snapshot completes and B's old connection sends a request. -/
+def hist3 : List Op :=
+  hist.take 8 ++
+  [.chunk 1 [.resource],
+   .chunk 0 [.removePairing uB, .addPairing uB (crypto.pkOf skB) false, .guarded 0],
+   .ready 1 true, .chunk 1 [.guarded 0]]
+
+/-- the only admin A removes itself with requests pipelined behind the removal; restart; B tries again -/
+def hist4 : List Op :=
+  hist.take 8 ++
+  [.chunk 0 [.removePairing uA, .guarded 0, .listPairings], .restart, .connect 2,
+   .chunk 2 [.pairVerify (m1 202)], .chunk 2 [.pairVerify (m3 uB skB 202 11)], .chunk 2 [.guarded 0]]
+
 end Demo
+
+/-- non-vacuity of the continuation clause of `C16_open_sessions_cut`, of
+    `C16_delayed_response_suppressed` and of the re-add remark: B is paired again, but nothing reached
+    its old connection after the close — neither the snapshot nor an answer to its next request -/
+example :
+    let s := run Sym.crypto true {} Demo.hist3
+    s.trace.reverse.take 4 =
+      [Event.resp 0 (.served 0), Event.resp 0 .ack, Event.close 1, Event.resp 0 .ack] ∧
+    s.live = [0] ∧ (getKey s.pairings Demo.uB).isSome = true ∧ (s.conns 1).pv.verified = false ∧
+    (reachedOf 1 s.trace).getLast? = some (Event.close 1) := by
+  decide +kernel
+
+/-- the same history before the removal: the snapshot request was accepted (a response is pending) -/
+example : ((run Sym.crypto true {} (Demo.hist3.take 9)).conns 1).pending = true := by decide +kernel
+
+/-- self-removal of the last admin with pipelined requests, restart, fresh attempt of B: the pipelined
+    requests are answered into the void, after the restart nobody is paired and B's first step is
+    refused -/
+example :
+    let s := run Sym.crypto true {} Demo.hist4
+    Event.dropped 0 .unauthorized ∈ s.trace ∧ Event.dropped 0 .pairingsDenied ∈ s.trace ∧
+    s.pairings = [] ∧ s.live = [2] ∧ (s.conns 2).pv.verified = false ∧
+    s.trace.getLast? = some (Event.resp 2 .unauthorized) := by
+  decide +kernel
 
 /-- **Before the repair** (`step C false`): the removed controller's old session is still served
     after the removal was acknowledged, and its connection stays registered. -/
